@@ -238,9 +238,47 @@ def r10_5(run):
     srcs = set(chain.values())
     ok = any(v.endswith(".constant") or v.endswith("._constant") for v in srcs) and len(keep) >= 2 and all(
         any(cfg.dominates(cfg.node_for(x), m) for m in mirrors if m is not None) for x in keep if cfg.node_for(x) is not None)
+    root_ok = False
+    for x in keep:
+        src = x.value
+        if isinstance(src, ast.Attribute) and src.attr in ("constant", "_constant") and isinstance(src.value, ast.Name):
+            nn = cfg.node_for(x)
+            defs = reaching_defs(cfg, src.value.id, nn) if nn is not None else []
+            vals = [norm(getattr(cfg.stmt[d], "value", ast.Constant(0))) for d in defs if d != ENTRY]
+            if vals and all(v == "graph.base.tensor.copy()" for v in vals):
+                root_ok = True
+    run.ob("R10.5", loc(fi, keep[0] if keep else fi.node), fi.short, "the flag re-imposed on the in-place result is the memory owner's (the private copy of the base)", root_ok,
+           "flag read from the tensor produced by graph.base.tensor.copy()" if root_ok else
+           "flag is taken from another tensor (e.g. the view being written): an update through a non-constant view flips the owner's flag")
     run.ob("R10.5", loc(fi, keep[0] if keep else fi.node), fi.short, "in-place result inherits the target's own constant flag before being mirrored", ok,
            f"_constant propagated {chain} and dominates mirror_tensor" if ok else
            "an in-place update can change the constant flag of its target")
+
+
+def r10_6(run):
+    n = 0
+    for fi in run.project.all_functions():
+        for c in own_nodes(fi.node):
+            if not isinstance(c, ast.Call):
+                continue
+            k = kw(c, "constant")
+            if k is None or not c.args:
+                continue
+            src = None
+            for x in ast.walk(k):
+                if isinstance(x, ast.Attribute) and x.attr == "constant" and not isinstance(x.value, ast.Name) or \
+                        (isinstance(x, ast.Attribute) and x.attr == "constant" and isinstance(x.value, ast.Name) and x.value.id not in ("self",)):
+                    src = x.value
+            if src is None or not isinstance(src, (ast.Subscript, ast.Name)):
+                continue
+            if isinstance(c.args[0], (ast.Subscript, ast.Name)) and type(c.args[0]) is type(src) and isinstance(src, ast.Subscript) \
+                    and norm(src.value) == norm(c.args[0].value):
+                n += 1
+                ok = norm(src) == norm(c.args[0])
+                run.ob("R10.6", loc(fi, c), fi.short, f"{norm(c.func)}({norm(c.args[0])}, ..., constant=<flag of {norm(src)}>)", ok,
+                       "the re-wrapped operand keeps its own constant flag" if ok else
+                       f"operand {norm(c.args[0])} is re-wrapped with the constant flag of {norm(src)}: a non-constant operand silently stops receiving gradient")
+    run.count("operand re-wrapping sites with a derived constant flag", n)
 
 
 def check(run):
@@ -248,9 +286,11 @@ def check(run):
     run.rule("R10.2", "every value store to a tensor's _grad is on the non-constant edge of a `.constant` test (or is the seed after the constant early-exit)", floor=5)
     run.rule("R10.3", "Tensor._op: `constant` is only inferred when it is None; the explicit flag reaches the output tensor", floor=5)
     run.rule("R10.4", "backward() on a constant tensor only clears the graph", floor=2)
+    run.rule("R10.6", "an operand that is re-wrapped (expand_dims/astensor...) with constant=<X>.constant uses its own flag", floor=2)
     run.rule("R10.5", "all wrappers forward constant=; in-place targets keep their flag", floor=80)
     r10_1(run)
     r10_2(run)
     r10_3(run)
     r10_4(run)
     r10_5(run)
+    r10_6(run)
